@@ -5,6 +5,7 @@ import (
 	"os"
 	"path/filepath"
 	"runtime"
+	"runtime/debug"
 	"strings"
 	"sync"
 	"sync/atomic"
@@ -418,7 +419,14 @@ func checkC20(c *ctx) {
 		}
 		c.Count("retained_thesaurus_after_inmemory_close")
 	}
-	// (reading an in-memory segment after Close is not part of the statement: Close releases its caches)
+	// the data of a closed in-memory segment stays what it was while later, smaller builds run in the
+	// same process (a snapshot may still hold the segment): dictionaries, stored fields, doc values
+	if bad := closedInMemoryThenBuilds(c); bad != "" {
+		c.Violation("C20 closing an in-memory segment must be harmless\n"+bad, false)
+		return
+	}
+	// (thesaurus / vector lookups on an in-memory segment after Close are not part of the statement:
+	// Close releases those caches)
 	if err := sb.Close(); err != nil {
 		c.Violation("C20 second Close of an in-memory segment returned "+err.Error(), false)
 	}
@@ -549,4 +557,54 @@ func checkC20(c *ctx) {
 		}
 	}
 	c.Case("simultaneous-last-drops", true)
+}
+
+func closedInMemoryThenBuilds(c *ctx) string {
+	oldGC := debug.SetGCPercent(-1)
+	defer debug.SetGCPercent(oldGC)
+	oldP := runtime.GOMAXPROCS(1)
+	defer runtime.GOMAXPROCS(oldP)
+	zh.DumpNoThes = true
+	defer func() { zh.DumpNoThes = false }()
+	parts := []int{pNDocs, pFields, pDicts, pStored, pDVFields, pDV}
+	for round := 0; round < c.n(3, 20); round++ {
+		// an earlier build gives the size estimate the later ones start from
+		w, _, err := zh.Build(zh.GenBatch(c.R, zh.RandOpts(c.R, 30+c.R.Intn(20), "u")), 1026)
+		must(err)
+		ba := zh.GenBatch(c.R, zh.RandOpts(c.R, 25+c.R.Intn(20), "a"))
+		a, _, spec, err := buildObs(c, ba, 1026)
+		must(err)
+		if err := a.Close(); err != nil {
+			return "Close returned " + err.Error()
+		}
+		var later []*zap.SegmentBase
+		for k := 0; k < 3; k++ {
+			sb, _, err := zh.Build(zh.GenBatch(c.R, zh.RandOpts(c.R, 3+c.R.Intn(12), "l")), 1026)
+			must(err)
+			later = append(later, sb)
+		}
+		bad := ""
+		func() {
+			defer func() {
+				if r := recover(); r != nil {
+					bad = fmt.Sprintf("reading it panics: %v", r)
+				}
+			}()
+			cont, err := zh.Dump(a)
+			if err != nil {
+				bad = "reading it fails: " + err.Error()
+				return
+			}
+			if d := partsDiffer(cont.Sx(), spec, parts); len(d) > 0 {
+				bad = "it differs from its batch in " + fmt.Sprint(d) + "\n" + describeDiff(cont.Sx(), spec, parts)
+			}
+		}()
+		c.Count("closed_inmemory_segments_reread_after_later_builds")
+		if bad != "" {
+			return fmt.Sprintf("an in-memory segment (%d documents) was closed, three smaller batches were built afterwards (same goroutine, one P, GC off), then the closed segment was read again (dictionaries, postings, stored fields, doc values): %s", len(ba), bad)
+		}
+		_ = later
+		_ = w
+	}
+	return ""
 }
